@@ -8,9 +8,9 @@ VERIF = os.path.dirname(os.path.dirname(os.path.abspath(__file__)))
 allp = [json.loads(l)['id'] for l in open(os.path.join(VERIF, 'properties.jsonl'))]
 checks = []
 for pid in allp:
-    if pid not in props.PROPS or pid not in mt.LEVEL:
+    if pid not in props.PROPS:
         continue
-    lv = mt.LEVEL[pid]
+    lv = props.LEVEL[pid]
     checks.append({
         'property_id': pid,
         'quick_cmd': './check %s --tier quick' % pid,
